@@ -60,3 +60,14 @@ Qed.
 (* after the queue is drained, a permitting flush leaves nothing pending *)
 Lemma flush_true_nothing_pending st st' out : flush true st = FOk st' out -> s_res st' = [].
 Proof. exact (flush_true_empties st st' out). Qed.
+
+(* ---------- the model's filters are the filters of the source ---------- *)
+From Coq Require Import String.
+From Gluon Require Import Gen.FactsFilters Model.FlushPolicy Model.FilterPolicy.
+
+Theorem model_filters_are_source_filters u s : src_filter u s = Some (upd_filter u s).
+Proof.
+  unfold src_filter, upd_filter. destruct u as [mb items og | mb m | mb parts og si | m fl ad]; vm_compute src_filter_type;
+    cbv [FlushPolicy.lookup filter_sem String.eqb Ascii.eqb Bool.eqb atoms_sem atom_sem upd_mbox upd_msg];
+    destruct (ss_sel s) as [sel|]; cbn [andb]; rewrite ?andb_true_r; try reflexivity.
+Qed.
